@@ -74,6 +74,8 @@ func CharCount(str string) int {
 // CreateAbsoluteURL convert url to absolute path based on base.
 // However, if url is prefixed with hash (#), the url won't be changed.
 func CreateAbsoluteURL(url string, base *nurl.URL) string {
+	// White space around the value of a URL attribute is not part of the URL.
+	url = strings.TrimSpace(url)
 	if url == "" || base == nil {
 		return url
 	}
